@@ -10,6 +10,7 @@ package tmmirror_test
 // same disk, redelivers the interrupted op's messages and continues.
 
 import (
+	"github.com/gordian-engine/gordian/tm/tmengine/tmelink"
 	"os"
 	"context"
 	"fmt"
@@ -143,6 +144,12 @@ func (s *sim) replayDeliveries(ds []delivery) {
 				s.alive = false
 				return
 			}
+		case d.Replay != nil:
+			cr := s.deliverReplayRaw(*d.Replay)
+			if cr.crashed || s.n.inc.dead {
+				s.alive = false
+				return
+			}
 		}
 		if s.n.inc.dead {
 			s.alive = false
@@ -202,7 +209,27 @@ func (s *sim) absTrigger(d delivery) string {
 	if d.Vote != nil {
 		return s.voteTrigger(*d.Vote)
 	}
+	if d.Replay != nil {
+		return s.replayTrigger(*d.Replay)
+	}
 	return ""
+}
+
+func (s *sim) deliverReplayRaw(b builtReplay) *callResult {
+	resp := make(chan tmelink.ReplayedHeaderResponse, 1)
+	cr := s.call(func(ctx context.Context) {
+		select {
+		case s.n.replayIn <- tmelink.ReplayedHeaderRequest{Header: b.Header, Proof: b.Proof, Resp: resp}:
+		case <-ctx.Done():
+			return
+		}
+		select {
+		case <-resp:
+		case <-ctx.Done():
+		}
+	})
+	s.settle(cr)
+	return cr
 }
 
 func (s *sim) deliverPHRaw(ph tmconsensus.ProposedHeader) *callResult {
@@ -517,7 +544,7 @@ func c10CrashRun(t *testing.T, c simCase, ref *c10Ref, k, w int) (out c10Outcome
 
 func c10Profile() genProfile {
 	return genProfile{
-		w:              map[string]int{"ph": 4, "vote": 10, "round": 8},
+		w:              map[string]int{"ph": 4, "vote": 10, "round": 8, "replay": 3},
 		phVariants:     []int{phFresh, phFresh, phAltNext},
 		pcpVariants:    []int{pcpExact},
 		voteCorr:       []int{vcNone, vcNone, vcNone, vcFlip},
@@ -529,7 +556,7 @@ func c10Profile() genProfile {
 	}
 }
 
-const c10Rule = "histories of 2-25 ops (honest macro rounds incl. nil and partial rounds, proposals incl. next-height headers that backfill a commit, vote messages for voting / next round, a few corrupted signatures) x a crash point (op index, store-write index inside that op; 0 = after the op); quick draws one crash point per history, thorough enumerates every store write of every op; the crash-free run of the same absolute messages is the reference; non-trivial = the crash lies strictly between two store writes of one operation, or in a round that holds persisted votes; distinct = fingerprint of (config, op list, crash point)"
+const c10Rule = "histories of 2-25 ops (honest macro rounds incl. nil and partial rounds, proposals incl. next-height headers that backfill a commit, honest replayed headers (block sync), vote messages for voting / next round, a few corrupted signatures) x a crash point (op index, store-write index inside that op; 0 = after the op); quick draws one crash point per history, thorough enumerates every store write of every op; the crash-free run of the same absolute messages is the reference; non-trivial = the crash lies strictly between two store writes of one operation, or in a round that holds persisted votes; distinct = fingerprint of (config, op list, crash point)"
 
 func TestVerifC10CrashRestart(t *testing.T) {
 	st := vk.NewStats("C10", "TestVerifC10CrashRestart", c10Rule)
